@@ -145,6 +145,11 @@ def cases(shard, nshards, seed, tier):
         for pairs in gen2d.matchings(n):
             if mine():
                 yield {"family": "exhaustive", "n": n, "pairs": pairs}
+    # the 3D entry point with and without the all-dot-brackets option: the structure's own notation is the optimal
+    # one either way (the option only adds the list)
+    for fn in ("tests/1ehz-assembly-1.cif", "tests/4qln.cif", "tests/1E7K_1_C.cif", "tests/1gid.cif.gz"):
+        if mine():
+            yield {"family": "from-3d-with-and-without-the-list", "file": fn}
     for name, n, pairs in gen2d.hostile():
         if name == "ladder30":
             continue
@@ -206,6 +211,22 @@ def run_case(case, rec):
     from rnapolis import common
     import pulp
 
+    if case["family"] == "from-3d-with-and-without-the-list":
+        from rnapolis import annotator
+        from vmon import gen3d
+
+        s3 = gen3d.load(case["file"], 1)
+        try:
+            plain, only = annotator.extract_secondary_structure(s3, None, False, False)
+            withlist, lst = annotator.extract_secondary_structure(s3, None, False, True)
+        except Exception as e:
+            rec.undecided("optimal.same-notation-with-the-list-option", f"annotation raised {type(e).__name__}")
+            return
+        rec.mark_nontrivial(len(lst) > 1)
+        # every conversion made on the way is judged by the objective contract; the option must not change the choice
+        rec.check("optimal.same-notation-with-the-list-option", plain.dotBracket == withlist.dotBracket and plain.bpseq == withlist.bpseq and plain.dotBracket in lst,
+                  lambda: {"file": case["file"], "without-the-option": plain.dotBracket[-200:], "with-the-option": withlist.dotBracket[-200:], "members": len(lst)})
+        return
     if case["family"] == "corpus-bpseq":
         import os
 
